@@ -537,6 +537,11 @@ func (g *gen) sFor() {
 func (g *gen) sLabelled() {
 	g.label++
 	l := fmt.Sprintf("L%d", g.label)
+	if g.label == 1 && g.r.Chance(1, 3) {
+		// a Go label may have any name, also one the emitted JavaScript uses for its own purposes
+		g.f("label:named-s")
+		l = "s"
+	}
 	g.tmp++
 	i1, i2 := fmt.Sprintf("i%d", g.tmp), fmt.Sprintf("j%d", g.tmp)
 	g.inLoop += 2
